@@ -140,8 +140,8 @@ def entry_points(rng):
     add("PersImage.transform", lambda a: PersImage(pixels=(4, 4), verbose=False).transform(a), lambda: (dg(),))
     add("kernels.gaussian", lambda x, y: ik.gaussian(x, y, mu=np.array([0.5, 0.5]), sigma=np.array([[1.0, 0.3], [0.3, 2.0]])), lambda: (np.linspace(-1, 2, 5), np.linspace(0, 3, 5)))
     add("kernels.uniform", lambda x, y: ik.uniform(x, y, mu=np.array([0.5, 0.5]), width=1.0, height=2.0), lambda: (np.linspace(-1, 2, 5), np.linspace(0, 3, 5)))
-    add("weights.linear_ramp", lambda b, p: iw.linear_ramp(b, p, low=0.0, high=1.0, start=0.0, end=3.5), lambda: (dg()[:, 0], dg()[:, 1]))
-    add("weights.persistence", lambda b, p: iw.persistence(b, p, n=2.0), lambda: (dg()[:, 0].astype(float), dg()[:, 1].astype(float)))
+    add("weights.linear_ramp", lambda b, p: iw.linear_ramp(b, p, low=0.0, high=1.0, start=0.0, end=3.5), lambda: (lambda D: (D[:, 0], D[:, 1]))(dg()))
+    add("weights.persistence", lambda b, p: iw.persistence(b, p, n=2.0), lambda: (lambda D: (D[:, 0], D[:, 1]))(dg().astype(float)))
     add("PersLandscapeExact", lambda a: PersLandscapeExact(dgms=[a], hom_deg=0).critical_pairs, lambda: (dg(),))
     add("PersLandscapeApprox", lambda a: PersLandscapeApprox(dgms=[a], start=0.0, stop=10.0, num_steps=11, hom_deg=0).values, lambda: (dg(),))
 
@@ -179,6 +179,36 @@ def entry_points(rng):
         return [(2.0 * P).p_norm(2), (P / 2.0).sup_norm(), (P + Q).critical_pairs, (P - Q).critical_pairs, (P + P).critical_pairs, (2.0 * P).critical_pairs, (P / 2.0).critical_pairs, (-Q).critical_pairs, P.p_norm(2), Q.sup_norm(),
                 vectorize(P, start=0.0, stop=10.0, num_steps=7).values, (P + Q).critical_pairs]
     add("exact landscape operators on shared operands", exact_ops, lambda: (PersLandscapeExact(dgms=[dg()], hom_deg=0), PersLandscapeExact(dgms=[dg()], hom_deg=0)))
+
+    # ---- consistency entries: functions returning (label, x, y) triples whose x and y must be identical
+    cons = lambda name, fn, mk: eps.append((name, fn, mk, "consistency"))
+
+    # lazily computed objects: a query on a landscape built with compute=False answers the same before and after any other query,
+    # and the same as on an eagerly computed landscape
+    def lazy_exact(a):
+        out = []
+        E = PersLandscapeExact(dgms=[a], hom_deg=0)
+        ref = {"sup_norm": float(E.sup_norm()), "p_norm": float(E.p_norm(2)), "critical_pairs": E.critical_pairs}
+        for first in ("sup_norm", "p_norm", "critical_pairs"):
+            P = PersLandscapeExact(dgms=[a], hom_deg=0, compute=False)
+            q = {"sup_norm": lambda: float(P.sup_norm()), "p_norm": lambda: float(P.p_norm(2)), "critical_pairs": lambda: (P.compute_landscape(), P.critical_pairs)[1]}
+            r_first = q[first]()
+            for k in q:
+                if k != first:
+                    q[k]()
+            out.append(("%s first vs after the other queries" % first, r_first, q[first]()))
+            out.append(("%s on a lazily built landscape vs an eagerly built one" % first, r_first, ref[first]))
+        return out
+    cons("exact landscape built with compute=False", lazy_exact, lambda: (dg(),))
+
+    # a transformer that was never fitted: transforming one collection must not change what it returns for another
+    def unfitted_transformer(a, b):
+        tr = PersistenceLandscaper(num_steps=7)
+        fresh = lambda X: PersistenceLandscaper(num_steps=7).transform([X])
+        r = [tr.transform([a]), tr.transform([b]), tr.transform([a])]
+        return [("transform(A) on a never-fitted transformer vs a fresh one", r[0], fresh(a)), ("transform(B) after transform(A) vs a fresh transformer", r[1], fresh(b)),
+                ("transform(A) again", r[2], fresh(a))]
+    cons("landscape transformer never fitted", unfitted_transformer, lambda: (dg().astype(float), dg().astype(float) + 3.0))
 
     def pl(a, b):
         plot_diagrams([a, b], lifetime=True, ax=fresh_ax())
@@ -219,6 +249,23 @@ def _standin(rep, tier, seed, only_search=False):
             eps = entry_points(rng)
             results = {}
             for name, fn, mk, _r in eps:
+                if _r == "consistency":
+                    args = mk()
+                    try:
+                        triples = fn(*args)
+                    except Exception as ex:
+                        rep.note("consistency entry %s raised %r" % (name, ex))
+                        continue
+                    evals += 1
+                    distinct.add(name)
+                    for label, x, y in triples:
+                        if not _same(x, y):
+                            rep.violation("%s: %s differ (%s vs %s)" % (name, label, repr(x)[:120], repr(y)[:120]), "repeatability:" + name.split("(")[0],
+                                          {"input": {"entry_point": name, "args": repr(args)[:600]}, "which": label})
+                            if only_search:
+                                return
+                            break
+                    continue
                 args = mk()
                 before = _snap(args)
                 try:
